@@ -157,6 +157,9 @@ pub fn hx32(v: u32) -> String {
     format!("0x{:08x}", v)
 }
 
+/// set by the binary when --scale < 1
+pub static REDUCED: std::sync::atomic::AtomicBool = std::sync::atomic::AtomicBool::new(false);
+
 #[derive(Clone, Debug)]
 pub struct Violation {
     /// stable description of WHAT failed (no random input in it)
@@ -244,6 +247,10 @@ impl Report {
     }
     /// coverage floor: missing it makes the run inconclusive, never a violation
     pub fn floor(&mut self, key: &str, min: u64) {
+        // reduced (sanitizer / interpreter) runs are not held to the coverage floors
+        if REDUCED.load(std::sync::atomic::Ordering::Relaxed) {
+            return;
+        }
         let got = self.cov_get(key);
         if got < min {
             self.inconclusive(format!("coverage floor not met: {} = {} < {}", key, got, min));
@@ -437,6 +444,14 @@ impl Ctx {
         } else {
             quick
         }
+    }
+    /// thinning of enumerated (non-random) case lists when scale < 1: keeps an
+    /// evenly spread fraction `scale` of the indices
+    pub fn keep(&self, k: u64) -> bool {
+        if self.scale >= 1.0 {
+            return true;
+        }
+        ((k as f64) * self.scale).floor() != (((k + 1) as f64) * self.scale).floor()
     }
     pub fn elapsed(&self) -> f64 {
         self.start.elapsed().as_secs_f64()
